@@ -685,6 +685,12 @@ func (in *Exec) spawn(caller *frame, pos token.Pos, fn value, args []value) {
 					// an uncaught panic in a goroutine crashes the process
 					panic(targetPanic{v: tp.v, site: tp.site + " (in goroutine)"})
 				}
+				if pa, ok := r.(pathAbort); ok && pa.kind == abBlocked {
+					// the spawned goroutine is parked where it blocks: the schedule in which it makes no further
+					// progress is a legal prefix; its effects so far stay
+					in.W.X.note("goroutine parked: " + pa.msg)
+					return
+				}
 				panic(r)
 			}
 		}()
